@@ -213,6 +213,32 @@ def ob_results(ctx, path):
     return {"status": "unsat", "queries": 0}
 
 
+def ob_false_justified(ctx, path):
+    """an operation that answers False (no schedule / no other schedule) found no model during the call: the unsat
+    verdict it relies on must then concern the problem's own system - base constraints plus blocking clauses - and
+    not a system strengthened by a pushed frame (a stale bound kept from an earlier call, ...): every assertion of
+    the frames above depth 1 at that check must follow from the frame at depth 1"""
+    queries = 0
+    for i, st in enumerate(ctx.steps):
+        if st["op"] not in ("solve", "another", "another_var") or st["result"] is not False or st["exc"] is not None:
+            continue
+        checks = st["new_checks"]
+        if not checks or any(c["verdict"] == z3.sat for c in checks):
+            continue
+        last = checks[-1]
+        frames = last.get("frames") or []
+        if len(frames) <= 1:
+            continue
+        pushed = [a for f in frames[1:] for a in f]
+        if not pushed:
+            continue
+        v, m = _decide(path, list(frames[0]) + [z3.Not(z3.And(pushed))])
+        queries += 1
+        if v != "unsat":
+            return _witness(ctx, path, f"op #{i} ({st['op']}) answers False on the strength of a check made under pushed assertions {pushed[:2]} that the problem's own system does not imply")
+    return {"status": "unsat", "queries": queries}
+
+
 def ob_objective_once(ctx, path):
     """the objective is registered exactly once per solver object, whatever the sequence"""
     for i, st in enumerate(ctx.steps):
@@ -224,7 +250,8 @@ def ob_objective_once(ctx, path):
 
 def session_shape(prop, seq, config, max_checks, with_optional=False, with_worker=False, obligations=None):
     name = f"seq/{config}/{'-'.join(seq)}" + ("/optional" if with_optional else "") + ("/workers" if with_worker else "")
-    obl = obligations or {"stack_invariant": ob_invariant, "results_match_verdicts": ob_results, "objective_registered_once": ob_objective_once}
+    obl = obligations or {"stack_invariant": ob_invariant, "results_match_verdicts": ob_results, "objective_registered_once": ob_objective_once,
+                          "false_answers_rest_on_the_problems_own_system": ob_false_justified}
 
     def build(P):
         return run_session(P, seq, config, max_checks, with_optional, with_worker)
@@ -297,6 +324,7 @@ def replay_session(desc):
         oracle.add(base)
         feasible = oracle.check() == z3.sat
         returned = []
+        var_blocks = 0
         tmpdir = tempfile.mkdtemp(prefix="c13r_")
         for i, op in enumerate(se["seq"]):
             try:
@@ -313,6 +341,8 @@ def replay_session(desc):
                         r = solver.find_another_solution()
                     else:
                         r = solver.find_another_solution_for_variable(tis[1].s)
+                        if r is not False:
+                            var_blocks += 1
                     if r is False:
                         if op == "solve" and feasible and not returned:
                             problems.append(f"op #{i} solve() reports no solution on a feasible problem")
@@ -333,6 +363,15 @@ def replay_session(desc):
                             oracle.pop()
                             if left:
                                 problems.append(f"op #{i} find_another_solution() fails although another valid schedule exists")
+                        elif op == "another_var" and had_model and returned:
+                            # the variable is B's start: a schedule with another start value, different from the schedules
+                            # excluded so far through this variable
+                            oracle.push()
+                            oracle.add(tis0[1].s != returned[-1][0][tis0[1].name])
+                            left = oracle.check() == z3.sat
+                            oracle.pop()
+                            if left and not var_blocks:
+                                problems.append(f"op #{i} find_another_solution_for_variable() fails although a valid schedule with another value exists")
                     else:
                         starts = {n: t.start for n, t in r.tasks.items()}
                         ends = {n: t.end for n, t in r.tasks.items()}
